@@ -6,6 +6,10 @@ the UNCHANGED tree (never run by a check; the known-findings files are committed
     VERIF_DUMP_KEYS=.build/mct/c03_thorough_keys.json ./check C03 --tier thorough
     (same for C06), then:  python3 tools/gen_kf_c03_c06.py
 
+After the And/And fix landed in /repo (d56a3010) the quick dumps were regenerated on the new tree
+(`*_quick_keys_v2.json`); the thorough dumps are still those of the pre-fix tree (thorough tiers were
+not re-run): from them the keys of the repaired root cause are dropped, the others are kept.
+
 Every key is assigned to a finding (a root cause, with a witness reproduced by hand, see
 notes/reports/C03.md / C06.md) by a rule over the key's own structure.  A key that no rule claims
 makes the script fail: a new class is never swept under an existing finding silently.
@@ -48,26 +52,25 @@ def split_top(rest):
 
 # ------------------------------------------------------------------------------------------- C03
 C03 = {
-    "and-and-arm-quantifier": {
-        "what": "Context::is_super_pred_of, arm (And, And): the loop asks for every conjunct of the SUBtype some conjunct of the supertype that contains it, instead of asking for every conjunct of the "
-                "supertype some conjunct of the subtype that implies it.  Since `<`, `>` and the interval types are conjunctions, most pairs reach this arm: `{I >= 5 and I >= 6}` is accepted where "
-                "`{I >= 0 and I <= 10}` is required, `g(x: {I: Int | I < 0}): {I: Int | I > 0 and I != 1} = x` is accepted and `g(-1)` returns -1 (stock binary, see notes/reports/C03.md). "
-                "With the proposed one-loop patch every key listed here disappears (quick: 8541 -> 249 unsound acceptances) and both test suites pass.",
-        "witness": "g(x: {I: Int | I >= 5 and I >= 6}): {I: Int | I >= 0 and I <= 10} = x\nprint! g(20)\n",
-        "proposed_fix": "notes/proposed-fixes/C03-and-and-quantifier.patch",
-    },
     "negated-predicate-as-supertype": {
         "what": "A supertype whose predicate is a negation -- source `not (p)` (instantiated as a Predicate::Call of the builtin `not`) or `~(p)` of a conjunction (Predicate::Not) -- is accepted above "
                 "an enum-like subtype (a disjunction of equalities) as soon as ONE listed value satisfies it (the possible_tps shortcut in the (Refinement, Refinement) arm of structural_supertype_of), "
-                "and above Nat-based interval types: `g(x: {I: Int | I != 0 or I == 0}): {I: Int | not (I < 0)} = x` is accepted and `g(-1)` returns -1. Independent of the And/And arm (remains with the patch).",
+                "and above Nat-based interval types: `g(x: {I: Int | I != 0 or I == 0}): {I: Int | not (I < 0)} = x` is accepted and `g(-1)` returns -1. Independent of the And/And arm (still fails on the tree with d56a3010).",
         "witness": "g(x: {I: Int | I != 0 or I == 0}): {I: Int | not (I < 0)} = x\nprint! g(-1)\n",
     },
     "empty-right-open-interval-as-supertype": {
         "what": "The empty interval types `a..<a` (predicate `I >= a and I <= pred(a)`) are accepted as supertypes of types that contain a: `g(x: {I: Int | I == 0}): 0..<0 = x` is accepted and `g 0` returns 0 "
-                "(comparison with the unevaluated `pred(0)` type parameter). Independent of the And/And arm (remains with the patch).",
+                "(comparison with the unevaluated `pred(0)` type parameter). Independent of the And/And arm (still fails on the tree with d56a3010).",
         "witness": "g(x: {I: Int | I == 0}): 0..<0 = x\nprint! g 0\n",
     },
 }
+
+
+C03_FIXED = [
+    "fixed: property=C03 d56a3010 the (And, And) arm of Context::is_super_pred_of quantified the wrong way round (every conjunct of the subtype contained in some conjunct of the supertype): "
+    "`g(x: {I: Int | I >= 5 and I >= 6}): {I: Int | I >= 0 and I <= 10} = x` was accepted and `print! g(20)` printed 20; 990 shape classes `accepts-non-inclusion:<route>:<P>/<Q>` with a "
+    "non-negated, non-empty-interval Q (quick: 8 040 of 225 792 in-process pairs, 133 of 7 920 definitions)",
+]
 
 
 def c03_group(key):
@@ -79,7 +82,7 @@ def c03_group(key):
         return "empty-right-open-interval-as-supertype"
     if q.startswith(("not(", "~(")):
         return "negated-predicate-as-supertype"
-    return "and-and-arm-quantifier"
+    return "REPAIRED:and-and-arm-quantifier"
 
 
 # ------------------------------------------------------------------------------------------- C06
@@ -160,8 +163,17 @@ def c06_group(key):
     return None
 
 
-def build(pid, dumps, table, group, extra=None):
+def build(pid, dumps, table, group, extra=None, prefix_dumps=(), fixed=()):
+    """dumps: runs on the current tree (every key must be claimed by a finding);
+    prefix_dumps: runs on the tree before the fixes (keys of a repaired root cause are dropped)"""
     keys = load(dumps)
+    dropped = 0
+    for k, v in load(prefix_dumps).items():
+        g = group(k)
+        if g is not None and g.startswith("REPAIRED:"):
+            dropped += 1
+            continue
+        keys.setdefault(k, v)
     if extra:
         for k in extra:
             keys.setdefault(k, {"n": 0, "witness": None})
@@ -169,12 +181,12 @@ def build(pid, dumps, table, group, extra=None):
     orphans = []
     for k in sorted(keys):
         g = group(k)
-        if g is None:
+        if g is None or g.startswith("REPAIRED:"):
             orphans.append(k)
         else:
             by.setdefault(g, []).append(k)
     if orphans:
-        print(f"{pid}: {len(orphans)} keys are claimed by no finding:")
+        print(f"{pid}: {len(orphans)} keys are claimed by no (open) finding:")
         for k in orphans[:40]:
             print("   ", k, json.dumps(keys[k].get("witness"))[:300])
         sys.exit(1)
@@ -188,11 +200,11 @@ def build(pid, dumps, table, group, extra=None):
         findings.append(f)
     out = os.path.join(HERE, "known_findings.d", f"{pid}.json")
     with open(out, "w") as f:
-        json.dump({"_comment": "generated by tools/gen_kf_c03_c06.py from runs on the unchanged tree; committed by hand; never written by a check", "findings": findings, "fixed": []}, f, indent=1)
-    print(pid, {f["name"]: len(f["keys"]) for f in findings})
+        json.dump({"_comment": "generated by tools/gen_kf_c03_c06.py from runs on the unchanged tree; committed by hand; never written by a check", "findings": findings, "fixed": list(fixed)}, f, indent=1)
+    print(pid, {f["name"]: len(f["keys"]) for f in findings}, "dropped (repaired root cause):", dropped)
 
 
 if __name__ == "__main__":
-    build("C03", ["c03_quick_keys.json", "c03_thorough_keys.json", "c03_l3_keys.json"], C03, c03_group)
-    # `and-elim-left:src:(r,n)/enumN` fails only once the proposed C03 patch is applied (seen on the patched scratch tree)
-    build("C06", ["c06_quick_keys.json", "c06_thorough_keys.json"], C06, c06_group, extra=["and-elim-left:src:(r,n)/enumN"])
+    build("C03", ["c03_quick_keys_v2.json"], C03, c03_group, prefix_dumps=["c03_thorough_keys.json", "c03_l3_keys.json"], fixed=C03_FIXED)
+    # C06: no root cause of its own was repaired; the quick dump is from the tree with the fixes, the thorough dump from the tree before
+    build("C06", ["c06_quick_keys_v2.json"], C06, c06_group, prefix_dumps=["c06_thorough_keys.json"], extra=["and-elim-left:src:(r,n)/enumN"])
